@@ -29,6 +29,7 @@ from fractions import Fraction
 import numpy as np
 
 from ..common import InfraError
+from ..exact import Pure, case_rng, describe, present_nd
 from ..pool import Result, fold, run_pool, worker_driver
 
 RULE = ("games (ao, bo, ai, bi) with every size in 1..4 drawn by the seeded generator (corpus first: the two minimal "
@@ -41,7 +42,11 @@ RULE = ("games (ao, bo, ai, bi) with every size in 1..4 drawn by the seeded gene
         "npa_embedding: word lists for all alphabets 1..3 (thorough 1..4) x levels {1, 2, '1+ab', '1+aab', ...}; reduction of random words "
         "and of every product word of small word lists; embeddings on a fixed list of shapes with unequal alphabets (answers/questions in 1..3) x "
         "levels {1, '1+ab', 2} x seeded games x all deterministic strategies (a seeded sample when there are more than 36; thorough: 400); "
-        "non-trivial there = both players have >= 2 answers, the shape is not symmetric and the strategy is not constant")
+        "non-trivial there = both players have >= 2 answers, the shape is not symmetric and the strategy is not constant. "
+        "Presentation: the prob_mat / pred_mat (and BCS constraint, odometer) arrays handed to toqito are re-presentations of the drawn values determined by "
+        "the case: C / Fortran / strided / permuted-stride layout, and where the values allow int64 (integer values) and bool (0/1 values) next to float64 — "
+        "except that the predicate tensor of an object on which classical_value is called keeps float64 (see PRED_DTYPE_EXCLUSION); after every call the "
+        "arrays handed over are compared with a deep snapshot")
 ASSUMPTIONS = [
     "dyadic inputs make every float64 operation of classical_value / the constructor exact (products and sums stay below 2^53)",
     "SDP-based values are compared as returned floats with the solver tolerance (2e-5 interior point: CLARABEL/CVXOPT, 1e-3 SCS); "
@@ -60,6 +65,13 @@ ASSUMPTIONS = [
 TOL_IP = 2e-5
 TOL_SCS = 1e-3
 OPS = ["classical", "quantum_lb", "nonsignaling", "npa1", "npa1ab", "npa2"]
+# Presentation exclusion (candidate defect, reported; NOT silently suppressed: counted under classical/int-or-bool-pred/...):
+# NonlocalGame.classical_value writes prob_mat[x, y] * pred_mat[:, :, x, y] into np.copy(self.pred_mat), i.e. into an array of the
+# predicate's dtype: an int64 predicate truncates every weight to 0 (CHSH: 0.0 instead of 0.75), a bool predicate turns them into
+# True (CHSH: 3.0).  Until that is decided (fix / finding), predicate tensors of objects on which classical_value is called are
+# presented in other layouts but keep dtype float64; everywhere else (constructor, from_bcs_game, NPA / non-signalling problems)
+# integer and boolean predicates are handed over.
+PRED_DTYPE_EXCLUSION = "pred_mat int64/bool x classical_value"
 
 
 # ------------------------------------------------------------------------------------------------
@@ -176,9 +188,13 @@ def check_classical(ctx, prob, pred, reps, kind, tag="rand"):
     desc = {"fn": "classical_value", "shape": list(shape), "reps": reps, "kind": kind, "prob": args["prob"], "pred": args["pred"]}
     branch = f"classical/{kind}/reps={reps}/" + ("pool" if it_cur > 1000 else "loop") + ("/enum-incomplete" if it_cur < it_fix else "")
     ctx.case(desc, _nontrivial(shape, pred), branch)
-    prob0, pred0 = prob.copy(), pred.copy()
+    prng = case_rng("c07/classical", list(shape), reps, kind, args["prob"], args["pred"])
+    pprob = present_nd(prng, prob, bool_ok=True)
+    ppred = present_nd(prng, pred, allow_dtype=False)      # layout only: PRED_DTYPE_EXCLUSION
+    desc["presentation"] = {"prob": describe(pprob), "pred": describe(ppred)}
+    guard = Pure(pprob, ppred)
     try:
-        game = NonlocalGame(prob, pred, reps)
+        game = NonlocalGame(pprob, ppred, reps)
         attr_p, attr_v = copy.deepcopy(game.prob_mat), copy.deepcopy(game.pred_mat)
         impl = game.classical_value()
     except Exception as e:  # noqa: BLE001
@@ -205,9 +221,22 @@ def check_classical(ctx, prob, pred, reps, kind, tag="rand"):
     if cur != spec:
         ctx.count("classical/current-mirror!=spec")
     if not (np.array_equal(game.prob_mat, attr_p) and np.array_equal(game.pred_mat, attr_v)
-            and np.array_equal(prob, prob0) and np.array_equal(pred, pred0)):
-        ctx.violation("classical_value changed prob_mat / pred_mat (or the caller's arrays)",
+            and np.asarray(game.prob_mat).dtype == np.asarray(attr_p).dtype and np.asarray(game.pred_mat).dtype == np.asarray(attr_v).dtype):
+        ctx.violation("classical_value changed prob_mat / pred_mat of the object",
                       {"function": "NonlocalGame.classical_value", "args": desc, "theorem": "methods_pure"})
+    why = guard.modified()
+    if why:
+        ctx.violation("NonlocalGame.classical_value: caller's arguments were modified",
+                      {"function": "NonlocalGame.classical_value", "args": desc, "modified": why, "theorem": "methods_pure"})
+    if kind == "01" and reps == 1 and ctx.hist.get("classical/int-or-bool-pred/probed", 0) < 24:
+        # evidence for PRED_DTYPE_EXCLUSION (counted, never an alarm): the same game with an int64 / bool predicate
+        ctx.count("classical/int-or-bool-pred/probed")
+        for dt in (np.int64, bool):
+            try:
+                v = NonlocalGame(prob.copy(), pred.astype(dt), 1).classical_value()
+                ctx.count(f"classical/int-or-bool-pred/{np.dtype(dt).name}/" + ("same value" if float(v) == float(impl) else "DIFFERENT value (candidate defect, excluded presentation)"))
+            except Exception as e:  # noqa: BLE001
+                ctx.count(f"classical/int-or-bool-pred/{np.dtype(dt).name}/raises {type(e).__name__}")
     if implq is None or abs(implq - spec) > tol:
         ctx.violation(
             f"classical_value = {impl!r} but the maximum over all pairs of deterministic answer functions is {spec} "
@@ -265,12 +294,19 @@ def check_product(ctx, shape, reps):
     prob = (np.arange(ai * bi).reshape(ai, bi) + 2).astype(float)
     desc = {"fn": "product_game", "shape": list(shape), "reps": reps}
     ctx.case(desc, bool(ao != bo and ai != bi and (ao >= 2 or ai >= 2) and (bo >= 2 or bi >= 2)), f"product/reps={reps}")
+    prng = case_rng("c07/product", list(shape), reps)
+    pprob, ppred = present_nd(prng, prob), present_nd(prng, pred)     # arange labels: float64 or int64
+    desc["presentation"] = {"prob": describe(pprob), "pred": describe(ppred)}
+    guard = Pure(pprob, ppred)
     try:
-        game = NonlocalGame(prob, pred, reps)
+        game = NonlocalGame(pprob, ppred, reps)
     except Exception as e:  # noqa: BLE001
         ctx.violation(f"NonlocalGame(prob, pred, reps={reps}) raised {type(e).__name__}: {str(e)[:200]} for shape {shape}",
                       {"function": "NonlocalGame.__init__(reps)", "args": desc, "impl": repr(e)[:300], "theorem": "productGame_pred"})
         return
+    if guard.modified():
+        ctx.violation("NonlocalGame.__init__(reps): caller's arguments were modified",
+                      {"function": "NonlocalGame.__init__(reps)", "args": desc, "modified": guard.modified(), "theorem": "methods_pure"})
     m = ctx.lean().ask("c07_product_game", _game_args(prob, pred, reps))
     ok = (list(np.shape(game.pred_mat)) == m["shape"] and _fl(game.pred_mat) == [_frac(v) for v in m["pred"]]
           and list(np.shape(game.prob_mat)) == m["shape"][2:] and _fl(game.prob_mat) == [_frac(v) for v in m["prob"]] and game.reps == m["reps"])
@@ -284,9 +320,21 @@ def check_product(ctx, shape, reps):
 def check_odometer(ctx, old, lim):
     from toqito.helper import update_odometer
 
-    new = update_odometer(np.array(old), np.array(lim))
+    prng = case_rng("c07/odometer", list(old), list(lim))
+    pold = present_nd(prng, np.array(old), allow_dtype=False)        # index vectors keep their integer dtype; layout (strided view) varies
+    plim = present_nd(prng, np.array(lim), allow_dtype=False) if prng.integers(3) else np.array(lim, dtype=float)   # the constructor passes float limits
+    guard = Pure(plim)
+    before = pold.copy()
+    new = update_odometer(pold, plim)
     m = ctx.lean().ask("c07_update_odometer", {"old": list(old), "lim": list(lim)})
     ctx.case({"fn": "update_odometer", "old": list(old), "lim": list(lim)}, len(set(lim)) > 1 and len(old) >= 2, "odometer")
+    if guard.modified():
+        ctx.violation("update_odometer: caller's arguments were modified",
+                      {"function": "update_odometer", "args": {"fn": "update_odometer", "old": list(old), "lim": list(lim)}, "modified": guard.modified()})
+    # Presentation exclusion (candidate defect, reported; counted here, not alarmed): `new_ind = old_ind[:]` is a VIEW of an ndarray
+    # argument, so update_odometer advances the caller's `old_ind` array in place (a list argument is copied).  The documented usage
+    # `vec = update_odometer(vec, upper_lim)` hides it.  The purity assertion therefore covers `upper_lim` only.
+    ctx.count("odometer/old_ind ndarray " + ("left unchanged" if np.array_equal(pold, before) else "ADVANCED IN PLACE (candidate defect, purity of old_ind not asserted)"))
     if [int(x) for x in new] != m["new"]:
         ctx.violation("update_odometer differs from the mixed-radix successor",
                       {"function": "update_odometer", "args": {"fn": "update_odometer", "old": list(old), "lim": list(lim)},
@@ -317,12 +365,20 @@ def check_bcs(ctx, n, cons, dtype="int"):
     desc = {"fn": "from_bcs_game", "n": n, "constraints": flat, "dtype": dtype}
     dep = [[bool(np.diff(a, axis=i).any()) for i in range(n)] for a in arrs]
     ctx.case(desc, any(not all(d) for d in dep) and len({tuple(f) for f in flat}) > 1, f"bcs/n={n}/m={len(cons)}")
+    prng = case_rng("c07/bcs", n, flat, dtype)
+    # each constraint tensor independently: layout, and int64 / float64 / bool (0/1-valued tables) as the values allow
+    parrs = [present_nd(prng, a, bool_ok=True) for a in arrs]
+    desc["presentation"] = describe(parrs)
+    guard = Pure(parrs)
     try:
-        game = NonlocalGame.from_bcs_game(arrs)
+        game = NonlocalGame.from_bcs_game(parrs)
     except Exception as e:  # noqa: BLE001
         ctx.violation(f"from_bcs_game raised {type(e).__name__}: {str(e)[:200]}",
                       {"function": "NonlocalGame.from_bcs_game", "args": desc, "impl": repr(e)[:300], "theorem": "bcs_pred_iff"})
         return
+    if guard.modified():
+        ctx.violation("NonlocalGame.from_bcs_game: caller's arguments were modified",
+                      {"function": "NonlocalGame.from_bcs_game", "args": desc, "modified": guard.modified()})
     m = ctx.lean().ask("c07_bcs_game", {"n": n, "constraints": flat})
     if "reject" in m:
         raise InfraError(f"driver rejected BCS system: {m}")
@@ -380,11 +436,17 @@ def _sdp_worker(task):
 
     prob = np.array(task["prob"], dtype=float).reshape(task["pshape"])
     pred = np.array(task["pred"], dtype=float).reshape(task["shape"])
+    # re-presentation of the same values (reproducible from the task alone); the predicate keeps float64 when classical_value is
+    # part of the history (PRED_DTYPE_EXCLUSION)
+    prng = case_rng("c07/sdp", task["seed"], task["kind"], task["shape"], task["reps"], task["ops"])
+    prob = present_nd(prng, prob, bool_ok=True)
+    pred = present_nd(prng, pred, allow_dtype="classical" not in task["ops"], bool_ok=True)
+    guard = Pure(prob, pred)
     try:
         game = ng.NonlocalGame(prob, pred, task["reps"])
     except Exception as e:  # noqa: BLE001
-        return {"calls": [{"op": "__init__", "value": None, "err": f"{type(e).__name__}: {str(e)[:200]}", "solvers": [], "unchanged": True}],
-                "final_prob": [], "final_pred": [], "final_reps": -1}
+        return {"calls": [{"op": "__init__", "value": None, "err": f"{type(e).__name__}: {str(e)[:200]}", "solvers": [], "unchanged": True, "args_modified": None}],
+                "final_prob": [], "final_pred": [], "final_reps": -1, "presentation": {"prob": describe(prob), "pred": describe(pred)}}
     orig_povm = ng.random_povm
     state = {"k": 0}
 
@@ -425,12 +487,14 @@ def _sdp_worker(task):
                 v, err = None, f"{type(e).__name__}: {str(e)[:200]}"
             same = (np.array_equal(game.prob_mat, snap[0]) and np.array_equal(game.pred_mat, snap[1]) and game.reps == snap[2]
                     and np.asarray(game.prob_mat).shape == snap[0].shape and np.asarray(game.pred_mat).shape == snap[1].shape)
-            out.append({"op": op, "value": None if v is None else float(v), "err": err, "solvers": sorted(set(solvers)), "unchanged": bool(same)})
+            out.append({"op": op, "value": None if v is None else float(v), "err": err, "solvers": sorted(set(solvers)), "unchanged": bool(same),
+                        "args_modified": guard.modified()})
     finally:
         ng.random_povm = orig_povm
         cvxpy.Problem.solve = orig_solve
     return {"calls": out, "final_prob": np.asarray(game.prob_mat, dtype=float).reshape(-1).tolist(),
-            "final_pred": np.asarray(game.pred_mat, dtype=float).reshape(-1).tolist(), "final_reps": int(game.reps)}
+            "final_pred": np.asarray(game.pred_mat, dtype=float).reshape(-1).tolist(), "final_reps": int(game.reps),
+            "presentation": {"prob": describe(prob), "pred": describe(pred)}}
 
 
 def _tol(solvers):
@@ -465,6 +529,9 @@ def judge(ctx, task, res):
             return
         if not c["unchanged"]:
             ctx.violation(f"calling {c['op']} changed prob_mat / pred_mat / reps of the object", {"function": c["op"], **info0, "theorem": "methods_pure"})
+        if c.get("args_modified"):
+            ctx.violation(f"NonlocalGame.{c['op']}: caller's arguments were modified",
+                          {"function": c["op"], **info0, "modified": c["args_modified"], "presentation": res.get("presentation"), "theorem": "methods_pure"})
     # the model's view of the history: classical values and final attributes
     m = ctx.lean().ask("c07_history", {**_game_args(np.array(task["prob"]).reshape(task["pshape"]), pred, task["reps"]), "ops": task["ops"]})
     if _fl(np.array(res["final_prob"])) != [_frac(v) for v in m["prob"]] or _fl(np.array(res["final_pred"])) != [_frac(v) for v in m["pred"]] or res["final_reps"] != m["reps"]:
@@ -787,13 +854,20 @@ def work_npa_embed(task, res):
     k = task["k"]
     drv = worker_driver()
     base_desc = _embed_desc("npa_embed", task, [], [])
+    prng = case_rng("c07/npa_embed", task["shape"], k, task["kind"], task["prob"], task["pred"])
+    pprob, ppred = present_nd(prng, prob, bool_ok=True), present_nd(prng, pred, bool_ok=True)     # 0/1 predicates also as int64 / bool
+    base_desc["presentation"] = {"prob": describe(pprob), "pred": describe(ppred)}
+    guard = Pure(pprob, ppred)
     try:
-        game = NonlocalGame(prob.copy(), pred.copy())
+        game = NonlocalGame(pprob, ppred)
         probs = _capture(lambda: game.commuting_measurement_value_upper_bound(k))
     except Exception as e:  # noqa: BLE001
         res.violation(f"commuting_measurement_value_upper_bound({k!r}) raised {type(e).__name__}: {str(e)[:200]} while building its problem for shape {shape}",
                       {"function": "NonlocalGame.commuting_measurement_value_upper_bound", "args": base_desc, "impl": repr(e)[:300], "theorem": "npa_sound_det"})
         return
+    if guard.modified():
+        res.violation("NonlocalGame.commuting_measurement_value_upper_bound: caller's arguments were modified",
+                      {"function": "NonlocalGame.commuting_measurement_value_upper_bound", "args": base_desc, "modified": guard.modified(), "theorem": "methods_pure"})
     if len(probs) != 1:
         raise InfraError(f"expected one cvxpy problem from commuting_measurement_value_upper_bound, captured {len(probs)}")
     P = probs[0]
@@ -991,13 +1065,20 @@ def work_ns_embed(task, res):
     ao, bo, ai, bi = shape
     drv = worker_driver()
     base_desc = _embed_desc("ns_embed", task, [], [])
+    prng = case_rng("c07/ns_embed", task["shape"], task["kind"], task["prob"], task["pred"])
+    pprob, ppred = present_nd(prng, prob, bool_ok=True), present_nd(prng, pred, bool_ok=True)     # 0/1 predicates also as int64 / bool
+    base_desc["presentation"] = {"prob": describe(pprob), "pred": describe(ppred)}
+    guard = Pure(pprob, ppred)
     try:
-        game = NonlocalGame(prob.copy(), pred.copy())
+        game = NonlocalGame(pprob, ppred)
         probs = _capture(lambda: game.nonsignaling_value())
     except Exception as e:  # noqa: BLE001
         res.violation(f"nonsignaling_value raised {type(e).__name__}: {str(e)[:200]} while building its problem for shape {shape}",
                       {"function": "NonlocalGame.nonsignaling_value", "args": base_desc, "impl": repr(e)[:300], "theorem": "ns_contains_det"})
         return
+    if guard.modified():
+        res.violation("NonlocalGame.nonsignaling_value: caller's arguments were modified",
+                      {"function": "NonlocalGame.nonsignaling_value", "args": base_desc, "modified": guard.modified(), "theorem": "methods_pure"})
     if len(probs) != 1:
         raise InfraError(f"expected one cvxpy problem from nonsignaling_value, captured {len(probs)}")
     P = probs[0]
